@@ -12,5 +12,5 @@ CONSTANTS
   CapAts2 = {1, 3}
 VIEW View
 INVARIANTS InitLeSpare Nested Contents OwnerBytes Untouched
-PROPERTIES Frame WriteBack Refusal
+PROPERTIES Frame WriteBack Refusal SliceReported
 CHECK_DEADLOCK FALSE
